@@ -163,10 +163,18 @@ impl ColDef {
             let vs: Vec<&str> = self.enums.iter().map(|s| s.as_str()).collect();
             b = b.enum_values(&vs);
         }
-        match self.ct {
-            CT::I16 => b.int16(),
-            CT::I32 => b.int32(),
-            CT::Str(n) => b.string(n),
+        // half of the columns of the four categories that have a convenience finisher are built
+        // through it, after an explicit category of another kind (documented: `id_string(n)` is
+        // `category(Identifier).string(n)`, so the finisher's category is the one that counts)
+        let via_finisher = self.name.len() % 2 == 0;
+        match (&self.ct, self.cat) {
+            (CT::I16, _) => b.int16(),
+            (CT::I32, _) => b.int32(),
+            (CT::Str(n), Some("Identifier")) if via_finisher => b.category(msi::Category::Text).id_string(*n),
+            (CT::Str(n), Some("Text")) if via_finisher => b.category(msi::Category::Guid).text_string(*n),
+            (CT::Str(n), Some("Formatted")) if via_finisher => b.category(msi::Category::Identifier).formatted_string(*n),
+            (CT::Str(0), Some("Binary")) if via_finisher => b.category(msi::Category::Text).binary(),
+            (CT::Str(n), _) => b.string(*n),
         }
     }
     /// description of a real column through its public getters (foreign key is not public)
